@@ -54,6 +54,7 @@ func alphabet(thorough bool) []ops.Op {
 		{K: "Burn", A: 2, T: 2, V: 1},          // burn custom token by a holder
 		{K: "Call", S: "refund", A: 5},         // accepted call that fails on receive: refund
 		{K: "Call", S: "stake", A: 1, V: 10},   // successful call with an amount
+		{K: "ReorgDrop"},                       // the node's last momentum is abandoned for a longer branch that confirms none of its blocks
 	}
 	if thorough {
 		a = append(a,
@@ -109,6 +110,32 @@ func tokenReceives(v *ledger.View) int {
 }
 
 func init() {
+	// ReorgDrop: a second producer shares the chain up to the node's frontier minus one and makes two empty momentums (one
+	// slot skipped); the node is handed that longer branch. Everything the abandoned momentum confirmed is unconfirmed again
+	// (sends, receives, calls), and so is everything pooled that depended on it.
+	ops.Extra["ReorgDrop"] = func(n *vnode.Node, o ops.Op) string {
+		H := n.Height()
+		if H < 2 {
+			return "too-short"
+		}
+		q := vnode.New(vnode.Options{Dir: n.Opts.Dir + "-drop"})
+		defer q.Destroy()
+		if H-1 >= 2 {
+			if _, err, pan := q.InsertChain(vnode.CloneBatch(n.Range(2, H-1))); err != nil || pan != nil {
+				return "err:prefix"
+			}
+		}
+		if err := q.ProduceMomentumOnly(1); err != nil {
+			return "err:produce"
+		}
+		if err := q.ProduceMomentumOnly(0); err != nil {
+			return "err:produce"
+		}
+		if _, err, pan := n.InsertChain(vnode.CloneBatch(q.Range(H, q.Height()))); err != nil || pan != nil {
+			return "err:switch"
+		}
+		return "ok"
+	}
 	xs.Register(&xs.Check{
 		ID:     "C01",
 		Level:  "model_checking",
